@@ -22,8 +22,8 @@
 (***************************************************************************)
 EXTENDS Referrers, Json
 CONSTANTS Modes, Caches, Pages, TagDels, SubjSel, Script, SerialPrefix, ObsPolicy
-VARIABLES hist, turn, obsI, needq, fetched
-gvars == <<dvars, hist, turn, obsI, needq, fetched>>
+VARIABLES hist, turn, obsI, needq, fetched, lockq
+gvars == <<dvars, hist, turn, obsI, needq, fetched, lockq>>
 
 GenConfs == ConfSpace(Modes, Caches, Pages, TagDels, SubjSel)
 P1 == <<"p1">>
@@ -51,14 +51,23 @@ ObsSeq == [i \in 1..(Len(SubjSeq) * Len(FilterSeq)) |->
 CanLocal(p) == /\ pc'[p] # "idle" /\ pc'[p] \notin ReqPcs
                /\ (pc'[p] = "p_lock" /\ LockPut) => mu' = ""
                /\ pc'[p] = "d_lock" => mu' = ""
-Pass(p) == turn' = IF CanLocal(p) THEN p ELSE ""
+\* Go hands a contended mutex to its waiters in arrival order when nobody else is running (the gate
+\* parks everybody else), so the generator wakes blocked goroutines first-come first-served and
+\* before anything else moves; (D) itself lets any waiter (or a newcomer) win.
+NeedsLock(l) == (l = "p_lock" /\ LockPut) \/ l = "d_lock"
+InQ(p) == \E i \in 1..Len(lockq) : lockq[i] = p
+Pass(p) == /\ turn' = IF CanLocal(p) THEN p ELSE ""
+           /\ lockq' = IF NeedsLock(pc'[p]) /\ mu' # "" /\ mu' # p /\ ~InQ(p) THEN Append(lockq, p)
+                        ELSE IF mu' = p /\ InQ(p) THEN SelectSeq(lockq, LAMBDA x : x # p)
+                        ELSE lockq
+WakeDue == mu = "" /\ lockq # <<>>
 Rec(e) == hist' = Append(hist, e)
 Nth == MaxOps - left + 1
 
-GInit == Init /\ hist = <<>> /\ turn = "" /\ obsI = 0 /\ needq = FALSE /\ fetched = {}
+GInit == Init /\ hist = <<>> /\ turn = "" /\ obsI = 0 /\ needq = FALSE /\ fetched = {} /\ lockq = <<>>
 
 GLaunch(p, k, a) ==
-  /\ turn = "" /\ obsI = 0 /\ left > 0
+  /\ turn = "" /\ obsI = 0 /\ left > 0 /\ ~WakeDue
   /\ AllIdle => ~needq
   /\ Script # <<>> => <<k, a>> = Script[Nth] /\ (Nth <= SerialPrefix + 1 => AllIdle)
   \* random histories: delete only what some earlier call pushed (deleting a manifest that never
@@ -72,14 +81,14 @@ GLaunch(p, k, a) ==
 \* scripted: nothing moves while calls of the overlapping part are still to be launched
 Frozen == Script # <<>> /\ left > 0 /\ Nth > SerialPrefix + 1
 GRel(p) ==
-  /\ turn = "" /\ obsI = 0 /\ pc[p] \in ReqPcs /\ ~Frozen
+  /\ turn = "" /\ obsI = 0 /\ pc[p] \in ReqPcs /\ ~Frozen /\ ~WakeDue
   /\ ReqStep(p)
   /\ Rec([t |-> "rel", p |-> p, m |-> ReqOf(p)[1], w |-> ReqOf(p)[2], x |-> ReqOf(p)[3]])
   /\ Pass(p)
   /\ UNCHANGED <<obsI, needq, fetched>>
 
 GWake(p) ==
-  /\ turn = "" /\ obsI = 0 /\ pc[p] \in LockPcs /\ ~Frozen
+  /\ turn = "" /\ obsI = 0 /\ pc[p] \in LockPcs /\ ~Frozen /\ lockq # <<>> /\ p = Head(lockq)
   /\ LocalStep(p)
   /\ Rec([t |-> "wake", p |-> p])
   /\ Pass(p)
@@ -95,13 +104,13 @@ GObserve ==
   /\ Quiesce
   /\ Rec([t |-> "q", obs |-> 1])
   /\ obsI' = 1 /\ needq' = FALSE
-  /\ UNCHANGED <<turn, fetched>>
+  /\ UNCHANGED <<turn, fetched, lockq>>
 
 GSkip ==
   /\ turn = "" /\ obsI = 0 /\ needq /\ AllIdle /\ left > 0
   /\ Rec([t |-> "q", obs |-> 0])
   /\ needq' = FALSE
-  /\ UNCHANGED <<dvars, turn, obsI, fetched>>
+  /\ UNCHANGED <<dvars, turn, obsI, fetched, lockq>>
 
 \* the observation block: every listing of ObsSeq, then a re-fetch of every stored index
 GList ==
@@ -112,7 +121,7 @@ GList ==
           /\ IF lpc' = "idle"
              THEN Rec([t |-> "xl", s |-> out'.s, f |-> out'.f, res |-> out'.res, err |-> out'.err]) /\ obsI' = obsI + 1
              ELSE UNCHANGED <<hist, obsI>>
-  /\ UNCHANGED <<turn, needq, fetched>>
+  /\ UNCHANGED <<turn, needq, fetched, lockq>>
 
 GFetch ==
   /\ obsI = Len(ObsSeq) + 1
@@ -123,7 +132,7 @@ GFetch ==
           /\ Rec([t |-> "xf", asked |-> d, got |-> out'.got])
           /\ fetched' = fetched \cup {d}
           /\ UNCHANGED obsI
-  /\ UNCHANGED <<turn, needq>>
+  /\ UNCHANGED <<turn, needq, lockq>>
 
 GNext ==
   \/ \E p \in Procs, o \in Ops : GLaunch(p, o[1], o[2])
